@@ -18,7 +18,11 @@
 (* Tensor shapes are a presentation matter of the harness; the semantics   *)
 (* is on the flattened (row-major) vector.                                 *)
 (***************************************************************************)
-EXTENDS IntMat
+EXTENDS IntMat, TLC
+
+\* TLC keeps [x \in S |-> e] as a closure and re-evaluates e on every application; TLCEval forces a
+\* value once.  It is the identity semantically.
+Force(v) == TLCEval(v)
 
 Ops == {"leaf", "lin", "scale", "add", "mul", "cat", "detach"}
 Unary  == {"lin", "scale", "detach"}
@@ -58,7 +62,7 @@ ValsUpTo(P, n) ==
                                               IN VAdd(Bc(prev[nd.a], n2), Bc(prev[nd.b], n2))
                        [] nd.op = "mul"    -> LET n2 == IF Len(prev[nd.a]) >= Len(prev[nd.b]) THEN Len(prev[nd.a]) ELSE Len(prev[nd.b])
                                               IN VMul(Bc(prev[nd.a], n2), Bc(prev[nd.b], n2))
-         IN  Append(prev, v)
+         IN  Append(prev, Force(v))
 Vals(P) == ValsUpTo(P, Len(P))
 
 \* requires_grad propagation
@@ -111,8 +115,8 @@ FwdJacUpTo(P, vals, n) ==
                        [] nd.op = "mul"    -> LET n2 == Len(vals[n])
                                               IN MAdd(RowScale(Bc(vals[nd.b], n2), BcRows(prev[nd.a], n2)),
                                                       RowScale(Bc(vals[nd.a], n2), BcRows(prev[nd.b], n2)))
-         IN  Append(prev, j)
-FwdJac(P) == FwdJacUpTo(P, Vals(P), Len(P))
+         IN  Append(prev, Force(j))
+FwdJac(P) == FwdJacUpTo(P, Force(Vals(P)), Len(P))
 
 \* TrueJac(P, outs, ins): rows = scalars of the tensors `outs` (sequence of node ids, flattened, in
 \* the order given), columns = scalars of the leaves `ins` (sequence of leaf ids, in order given)
@@ -121,7 +125,7 @@ ConcatRows(FJ, outs) == IF outs = <<>> THEN <<>> ELSE FJ[Head(outs)] \o ConcatRo
 RECURSIVE PickCols(_, _, _)
 PickCols(P, row, ins) == IF ins = <<>> THEN <<>>
                          ELSE Slice(row, LeafOffset(P, Head(ins)) + 1, P[Head(ins)].size) \o PickCols(P, row, Tail(ins))
-TrueJac(P, outs, ins) == LET full == ConcatRows(FwdJac(P), outs)
+TrueJac(P, outs, ins) == LET full == Force(ConcatRows(Force(FwdJac(P)), outs))
                          IN  [r \in 1..Len(full) |-> PickCols(P, full[r], ins)]
 \* block of TrueJac belonging to one leaf
 TrueJacBlock(P, outs, l) == TrueJac(P, outs, <<l>>)
@@ -151,11 +155,11 @@ BackFrom(P, vals, rg, n, adj) ==
                       [] nd.op = "add"    -> PushTo(PushTo(adj, nd.a, Unbc(g, sz[nd.a])), nd.b, Unbc(g, sz[nd.b]))
                       [] nd.op = "mul"    -> PushTo(PushTo(adj, nd.a, Unbc(VMul(g, Bc(vals[nd.b], Len(g))), sz[nd.a])),
                                                     nd.b, Unbc(VMul(g, Bc(vals[nd.a], Len(g))), sz[nd.b]))
-         IN  BackFrom(P, vals, rg, n - 1, adj2)
+         IN  BackFrom(P, vals, rg, n - 1, Force(adj2))
 
 \* adjoints of all nodes for cotangents ct[o] on the output nodes o \in DOMAIN ct
 VJPAll(P, ct) ==
-    LET vals == Vals(P)
+    LET vals == Force(Vals(P))
         init == [i \in 1..Len(P) |-> IF i \in DOMAIN ct THEN ct[i] ELSE Zeros(Len(vals[i]))]
     IN  BackFrom(P, vals, RG(P), Len(P), init)
 \* what torch.autograd.grad(outs, ins, grad_outputs = ct) returns, concatenated over `ins`
